@@ -217,8 +217,12 @@ def check_builtin(case):
     admissible_undefined = [
         (s, e) for (s, e) in undefined if e - s >= msl and (s == 0 or s >= msl)
     ]
-    det = PELT(make_cost(case["cost"]), case["penalty_scale"], msl)
     history = case.get("history")
+    # (scorer_handle_reconfigured: the cost object had a fixed parameter when PELT was constructed around it and was set back to
+    # the optimised parameter through the caller's own handle afterwards)
+    handle, finish, _ = K.detour_handle(make_cost(case["cost"])) if history == "scorer_handle_reconfigured" else (make_cost(case["cost"]), lambda: None, 0)
+    det = PELT(handle, case["penalty_scale"], msl)
+    finish()
     try:
         with sut("PELT.fit/predict", allowed=(RuntimeError,)):
             # the detector / its cost may have a past: an earlier fit of the cost object on wider data, an earlier
